@@ -404,7 +404,7 @@ def moved_not_cloned(chk, fb, b, RID="R15.4"):
             ty = (t["args"][0].get("place") or {}).get("ty") or t["args"][0].get("ty") or ""
             if ty.strip() in ("&T", "&mut T"):
                 chk.violation(RID, "clone:%s" % p, "%s clones an operand value (%s): a variable that occurs once is cloned after all instead of being moved through the reduction" % (p, ty), loc(t["span"]))
-        takes = sum(1 for bi, t in mir.calls(bd) if (mir.callee_path(t) or "").endswith("mem::take"))
+        takes = sum(1 for bi, t in mir.calls(bd) if (mir.callee_path(t) or "").endswith(("mem::take", "mem::replace", "mem::swap")))
         n += takes
-    chk.floor(RID, "operands moved out with mem::take in the reduction engine", n, 2)
+    chk.floor(RID, "operands moved out (mem::take / replace / swap) in the reduction engine", n, 2)
     chk.ok(RID, "no operand clone in the reduction engine", ", ".join(sorted(engine)), loc(fb.bodies[red]["span"]))
